@@ -9,7 +9,7 @@
 //!   both decoders, re-encode, hash and == return (no panic) for every b.
 use crate::h::*;
 use crate::stubs::{self, G};
-use chia_protocol::{Bytes, Bytes32, BytesImpl, Coin, CoinState, ProofOfSpace};
+use chia_protocol::{Bytes, Bytes32, BytesImpl, Coin, CoinState, ProofOfSpace, SubEpochData, SubEpochSummary};
 use chia_sha2::Sha256;
 use chia_traits::chia_error::Error;
 use chia_traits::Streamable;
@@ -142,6 +142,20 @@ wire_inst!(c13_opt_bytes_n7, Option<Bytes>, 7, 36, true);
 wire_inst!(c13_coin, Coin, 72, 80, true);
 wire_inst!(c13t_coin_state_n74, CoinState, 74, 90, true);
 wire_inst!(c13t_coin_state_n82, CoinState, 82, 90, true);
+
+// hand-written codecs that pack TWO optionals into one prefix byte (chia_protocol::utils::{parse,
+// stream,update_digest}; values 0..3, anything else rejected): all byte strings of each valid length
+// SubEpochData: 32 + 1 + Option<u64> + shared(Option<u64>, Option<Bytes32>)
+wire_inst!(c13_sub_epoch_data_n35, SubEpochData, 35, 50, true);
+wire_inst!(c13_sub_epoch_data_n43, SubEpochData, 43, 60, true);
+wire_inst!(c13t_sub_epoch_data_n67, SubEpochData, 67, 90, true);
+wire_inst!(c13_sub_epoch_data_n75, SubEpochData, 75, 90, true);
+wire_inst!(c13t_sub_epoch_data_n36, SubEpochData, 36, 50, false);
+// SubEpochSummary: 32 + 32 + 1 + Option<u64> + shared(Option<u64>, Option<Bytes32>)
+wire_inst!(c13_sub_epoch_summary_n67, SubEpochSummary, 67, 90, true);
+wire_inst!(c13t_sub_epoch_summary_n75, SubEpochSummary, 75, 90, true);
+wire_inst!(c13t_sub_epoch_summary_n99, SubEpochSummary, 99, 110, true);
+wire_inst!(c13_sub_epoch_summary_n107, SubEpochSummary, 107, 120, true);
 
 // String: UTF-8 validation inside
 wire_harness!(c13t_string_n6, 36, {
